@@ -291,6 +291,7 @@ func cmdFn(args []string) int {
 	keep := fl.String("keep", "", "directory to keep SMT files in")
 	timeout := fl.Int("t", 10, "solver timeout (s)")
 	verbose := fl.Bool("v", false, "print goals")
+	nosolve := fl.Bool("nosolve", false, "only generate the SMT files (needs -keep)")
 	fl.BoolVar(&debugPanic, "panic", false, "do not recover generator panics")
 	fl.Parse(args)
 	s, err := loadSession("")
@@ -307,6 +308,13 @@ func cmdFn(args []string) int {
 		}
 		for _, t := range ts {
 			res := verifyFunction(t.w, t.ss, t.fn, t.spec)
+			if *nosolve {
+				os.MkdirAll(*keep, 0o755)
+				for _, o := range res.Obls {
+					os.WriteFile(filepath.Join(*keep, sanitize(o.Name)+".smt2"), []byte(o.render()), 0o644)
+				}
+				continue
+			}
 			solveAll(res.Obls, solveOpts{timeout: *timeout, workers: runtime.NumCPU(), keepDir: *keep})
 			fmt.Printf("== %s (%s) loops=%d\n", res.Key, res.Pos, res.Loops)
 			if res.Err != "" {
@@ -398,6 +406,9 @@ func cmdCheck(args []string) int {
 	}
 	fmt.Printf("property=%s tier=%s functions=%d obligations=%d discharged=%d known=%d undecided=%d soft_open=%d violations=%d solver_s=%.1f wall_s=%.1f\n",
 		rep.Prop, rep.Tier, len(rep.Funcs), rep.Obligations, rep.Discharged, rep.Known, len(rep.Undecided), rep.SoftOpen, rep.Violations, rep.SolverS, rep.Wall)
+	for _, sl := range rep.Slow {
+		fmt.Println("slow:", sl)
+	}
 	if rep.Violations > 0 || rep.Fatal != "" {
 		if rep.Fatal != "" {
 			fmt.Println("FATAL:", rep.Fatal)
